@@ -57,6 +57,8 @@ def run(ctx) -> None:
     ctx.reuse("C04.pairing", c18.sorting)
     for kind in ("add", "remove"):
         ctx.reuse("C04.frame", c02.nonneg, kind)
+    # a requested volume that is split into several steps is charged in full: the steps add up to the request
+    ctx.reuse("C04.split-sum", c06.partition_volume)
     for dev in concrete_devices(ctx):
         ctx.reuse("C04.pairing", c06.wiring, dev)
         ctx.reuse("C04.pairing", c06.iteration_space, dev)
@@ -213,23 +215,79 @@ def length_guard(ctx, kind: str) -> None:
                     if any(is_name(strip_norm(n_), a.id) or is_name(n_, a.id) for n_ in names) and any(same_seq(n_, wl[0]) for n_ in names):
                         guards.add(gn.id)
         verdict, detail = True, f"`{a.id}` is as long as the wells on every path ({len(guards)} length guard(s))"
+
+        def len_test(tn):
+            """(constant c, True if `==`) when the test node compares len(<this sequence>) with a constant"""
+            e_ = tn.ast
+            if isinstance(e_, ast.Compare) and len(e_.ops) == 1 and isinstance(e_.ops[0], (ast.Eq, ast.NotEq)) and call_fname(e_.left) == "len" and e_.left.args \
+                    and is_name(e_.left.args[0], a.id) and isinstance(e_.comparators[0], ast.Constant) and isinstance(e_.comparators[0].value, int):
+                return e_.comparators[0].value, isinstance(e_.ops[0], ast.Eq)
+            return None
+
+        def reaches_loop(d, known_len):
+            dn_ = fv.cfg.nodes[d]
+            blocked = set(guards) | {x for x in defs if x != d}
+            stack = [s_ for s_, lab in dn_.succ if lab != "exc"] if dn_.kind != "entry" else [s_ for s_, lab in dn_.succ]
+            seen = set()
+            while stack:
+                x = stack.pop()
+                if x in seen or x in blocked:
+                    continue
+                seen.add(x)
+                if x == head:
+                    return True
+                xn = fv.cfg.nodes[x]
+                lt = len_test(xn) if xn.kind == "test" else None
+                for s_, lab in xn.succ:
+                    if lab == "exc":
+                        continue
+                    if lt is not None and known_len is not None and lab in ("T", "F"):
+                        holds = (known_len == lt[0]) == lt[1]
+                        if (lab == "T") != holds:
+                            continue
+                    stack.append(s_)
+            return False
+
         for d in defs:
             dn = fv.cfg.nodes[d]
+            known_len = None
             if dn.kind == "stmt" and isinstance(dn.ast, ast.Assign):
                 v = dn.ast.value
-                by_construction = isinstance(v, ast.BinOp) and isinstance(v.op, ast.Mult) and any(
-                    call_fname(sd) == "len" and sd.args and same_seq(fv.res.resolve(sd.args[0], d), wl[0]) for sd in (v.left, v.right))
-                if not by_construction:
+                if isinstance(v, ast.BinOp) and isinstance(v.op, ast.Mult):
+                    sides = [(v.left, v.right), (v.right, v.left)]
+                    by_construction = None
+                    for ln, other in sides:
+                        if call_fname(ln) == "len" and ln.args and same_seq(fv.res.resolve(ln.args[0], d), wl[0]):
+                            if isinstance(other, ast.List):
+                                by_construction = len(other.elts) == 1
+                            else:
+                                base = other
+                                while isinstance(base, ast.Call) and call_fname(base) in ("list", "tuple") and len(base.args) == 1:
+                                    base = base.args[0]
+                                if is_name(base, a.id):
+                                    # repeating the sequence itself: as long as the wells only where it is known to hold one element
+                                    one = any(pol_ and (lt_ := len_test(fv.cfg.nodes[t_])) is not None and lt_ == (1, True)
+                                              for t_, pol_ in fv.controlling(d, skip_raising=True) if fv.cfg.nodes[t_].kind == "test")
+                                    by_construction = True if one else None
+                    if by_construction is True:
+                        continue
+                    if by_construction is False:
+                        verdict, detail = False, f"`{stmt_key(dn.ast)[:50]}` repeats a list that does not hold exactly one element: not one entry per well"
+                        continue
                     verdict, detail = None, f"cannot relate the length of `{stmt_key(dn.ast)[:50]}` to the wells"
+                    continue
+                if isinstance(v, (ast.List, ast.Tuple)) and not any(isinstance(e_, ast.Starred) for e_ in v.elts):
+                    known_len = len(v.elts)
+                else:
+                    verdict, detail = None, f"cannot relate the length of `{stmt_key(dn.ast)[:50]}` to the wells"
+                    continue
+            elif dn.kind != "entry":
+                verdict, detail = None, f"cannot relate the length of `{a.id}` defined at `{stmt_key(dn.ast)[:40]}` to the wells"
                 continue
-            # the caller's sequence: every path on which it reaches the loop unchanged must pass a length guard
-            blocked = set(guards) | {x for x in defs if x != d}
-            start = [s_ for s_, lab in dn.succ if lab != "exc"] if dn.kind != "entry" else [s_ for s_, lab in dn.succ]
-            reach = set()
-            for s_ in start:
-                reach |= fv.cfg.reachable_from(s_, blocked)
-            if head in reach and verdict is True:
-                verdict, detail = False, (f"the caller's `{a.id}` can reach the zip loop without a check that it is as long as the wells: zip() stops at the shortest "
+            # the caller's sequence (or a literal of known length): every path on which it reaches the loop unchanged must pass a length guard
+            if reaches_loop(d, known_len) and verdict is True:
+                what = f"the caller's `{a.id}`" if known_len is None else f"`{stmt_key(dn.ast)[:40]}` ({known_len} element(s))"
+                verdict, detail = False, (f"{what} can reach the zip loop without a check that it is as long as the wells: zip() stops at the shortest "
                                           "sequence, so the wells beyond it are silently not charged")
         ctx.rep.check(verdict, rule, c, detail, detail, where=w)
 
